@@ -66,6 +66,8 @@ Proof. exact find_total_length. Qed.
 Require Import RegexCaps.
 Theorem C18_capture_groups_inside_match : forall k r s, Forall (fun g => (length g <= length (hd [] (re_capture k r s)))%nat) (re_capture k r s).
 Proof. exact capture_groups_inside_match. Qed.
+Theorem C18_find_at_most_length_plus_one_matches : forall k r s, (length (re_find k r s) <= S (length s))%nat.
+Proof. exact find_count_bound. Qed.
 Example C18_dollar_zero_example : spans_c 1 (RStar (RChar 97)) [97;97;98;97]%N <> [] /\ re_replace_x 1 (RStar (RChar 97)) [97;97;98;97]%N [36; 48]%N 2 = [97;97;98;97]%N.
 Proof. split; [vm_compute; discriminate | vm_compute; reflexivity]. Qed.
 Print Assumptions C18_plain_replacement_is_not_expanded.
